@@ -3,7 +3,7 @@
    check_case: the model computes what the implementation did.
    spec_case : what the implementation did satisfies the property, judged WITHOUT the automata:
                from the packets the clients sent and the bytes the handlers wrote alone. *)
-From Sdns Require Export Common.Base Gen.C10 C10.Model C10.ModelStream C10.ModelShare C10.ModelPool.
+From Sdns Require Export Common.Base Gen.C10 C10.Model C10.ModelStream C10.ModelShare C10.ModelPool C10.ModelChains.
 Open Scope N_scope.
 
 (* byte strings travel run-length encoded: (count, byte) *)
@@ -36,6 +36,10 @@ Inductive connrec :=
   CR (reused : bool) (frames : list rle) (junk : rle) (scripts : list (N * scriptN)) (reads : list N)
      (budgets : list N) (arms : list bool) (writes : list rle).
 
+(* requests overlapping on job-owned and pooled chains: begin wire-born r on slab j / begin pooled r
+   on the chain c that NewChain handed out / r writes / end (Finish) / end (PutChain) *)
+Inductive kopN := KBW (r j : N) | KBP (r c : N) | KW (r : N) (bs : rle) | KEW (r : N) | KEP (r : N).
+
 Inductive case :=
   (* sequential operations on the real udpEngine pieces: per client address the datagrams it
      received in order; the slabs at the end; did anything panic *)
@@ -51,6 +55,10 @@ Inductive case :=
 | CaseWriter (ops : list (option N * rle)) (obs : list (option (N * rle)))
   (* connections served one after the other by one engine (pooled tcpStream and slabs) *)
 | CaseConnSeq (conns : list connrec)
+  (* interleaved requests on the real Pipeline / Chain objects (slab-owned chains 0..nslabs-1,
+     pooled chains numbered as NewChain first hands them out); observed per operation: which
+     transport received which bytes (a request's transport is its number) *)
+| CaseChains (nslabs : N) (ops : list kopN) (obs : list (option (N * rle)))
   (* n waiters of one shared lookup: result id/body, waiter ids, shared flag, what each waiter's
      caller appended to ITS message right after the return; observed (id, body) each waiter
      holds when all are done, and whether all returned messages are distinct objects *)
@@ -192,6 +200,53 @@ Definition connio_of (c : connrec) : connio :=
 Definition connrec_writes (c : connrec) : list (list byte) :=
   match c with CR _ _ _ _ _ _ _ writes => map unrle writes end.
 
+Definition kact_of (o : kopN) : kact :=
+  match o with
+  | KBW r j => KBeginWire (N.to_nat r) (N.to_nat j)
+  | KBP r c => KBeginPool (N.to_nat r) (N.to_nat c)
+  | KW r bs => KWrite (N.to_nat r) (unrle bs)
+  | KEW r => KEndWire (N.to_nat r)
+  | KEP r => KEndPool (N.to_nat r)
+  end.
+(* every recorded operation must be ENABLED in the model (the pool really held the chain it
+   handed out, the slab really was free, ...) and emit what was observed *)
+Fixpoint run_kops (s : kst) (ops : list kopN) (obs : list (option (N * rle))) : bool :=
+  match ops, obs with
+  | [], [] => true
+  | o :: r, e :: r' =>
+      match kstep s (kact_of o) with
+      | None => false
+      | Some s1 =>
+          let emitted := if (length (k_log s) <? length (k_log s1))%nat
+                         then match k_log s1 with (_, t, b) :: _ => Some (t, b) | [] => None end
+                         else None in
+          opt_emit_eqb emitted e && run_kops s1 r r'
+      end
+  | _, _ => false
+  end.
+(* judged without the automaton: a reply reaches the transport of the request that wrote it; a
+   chain handed out by NewChain is no slab's chain and is not in use by a request in flight *)
+Fixpoint chains_spec (nslabs : N) (users : list (N * N)) (ops : list kopN) (obs : list (option (N * rle))) : bool :=
+  match ops, obs with
+  | [], [] => true
+  | o :: r, e :: r' =>
+      let drop q := filter (fun p => negb (fst p =? q)) users in
+      match o with
+      | KBW q j => match e with None => chains_spec nslabs ((q, j) :: users) r r' | Some _ => false end
+      | KBP q c => match e with
+                   | None => (nslabs <=? c) && negb (existsb (fun p => snd p =? c) users) && chains_spec nslabs ((q, c) :: users) r r'
+                   | Some _ => false
+                   end
+      | KW q bs => match e with
+                   | Some (t, got) => (t =? q) && bytes_eqb (unrle got) (unrle bs) && chains_spec nslabs users r r'
+                   | None => chains_spec nslabs users r r'      (* a second write of one request is refused *)
+                   end
+      | KEW q => match e with None => chains_spec nslabs (drop q) r r' | Some _ => false end
+      | KEP q => match e with None => chains_spec nslabs (drop q) r r' | Some _ => false end
+      end
+  | _, _ => false
+  end.
+
 (* ------------------------------------------------------------------ check_case *)
 Definition check_case (c : case) : bool :=
   match c with
@@ -217,6 +272,7 @@ Definition check_case (c : case) : bool :=
       list_eqb (list_eqb bytes_eqb)
                (conn_seq (N.to_nat tcp_drain_size) (N.to_nat tcp_fill_size) (s_init [] []) (map connio_of conns))
                (map connrec_writes conns)
+  | CaseChains nslabs ops obs => run_kops (k_init (N.to_nat nslabs)) ops obs
   | CaseWriter ops obs =>
       let wops := map (fun o => match fst o with Some t => WReset t | None => WWrite (unrle (snd o)) end) ops in
       (* a chain that has never been bound has no transport: the first operation is a Reset *)
@@ -262,6 +318,7 @@ Definition spec_case (c : case) : bool :=
          same engine: nothing of an earlier connection's replies shows up in a later one *)
       forallb (fun c => match c with CR _ frames junk scripts _ budgets arms writes =>
                           conn_spec frames junk scripts budgets arms writes end) conns
+  | CaseChains nslabs ops obs => chains_spec nslabs [] ops obs
   | CaseWriter ops obs =>
       (* every emission goes to the transport of the latest Reset before it, carries the bytes
          of that very write, and the first write after a Reset always gets through *)
